@@ -2,8 +2,11 @@
  * default nonce function (over the hash stream contracts) or a caller-supplied one (stub: arbitrary result and output).
  * Oracles with logs: ecmult_const (R = k*Y), ecmult_gen (R' = k*G), ge_set_all_gej, scalar_inverse, scalar_mul,
  * secp256k1_dleq_prove (may fail; yields two scalars).
- *   nonce function returns 0, k = 0, invalid secret key, r = 0, s' = 0 or DLEQ failure => 0 and adaptor_sig162 ALL ZERO
- *   success => bytes = cbytes(R) || cbytes(R') || s' || e || s with s' = k^-1 * (m + r*d), r = x(R) mod n, m = msg mod n */
+ *   succeeds exactly when the nonce function succeeded, k != 0, 0 < seckey < n, the DLEQ proof was produced, r != 0 and s' != 0
+ *   success => bytes = cbytes(R) || cbytes(R') || s' || e || s with R = k*Y, R' = k*G, DLEQ proof for (k; R', Y, R),
+ *              s' = k^-1 * (m + r*d), r = x(R) mod n, m = msg mod n
+ * Nothing is demanded about adaptor_sig162 or about which oracles run when the call returns 0 (header and property are silent);
+ * oracle calls are identified by operand VALUES, commutative operands in either order (audit #2, #14, #16). */
 #define LOG_SCALAR_MUL
 #define LOG_SCALAR_INV
 #define LOG_ECMULT_GEN
@@ -14,6 +17,7 @@
 #include "assumed_C02.h"
 #include "src/secp256k1.c"
 #include "post.h"
+#include "../C12/decode.h"
 size_t g_k;
 #ifndef VERIF_NATIVE
 static wide le256(const unsigned char *b) { wide v = 0; int i; for (i = 31; i >= 0; i--) v = (v << 8) | W(b[i]); return v; }
@@ -35,46 +39,49 @@ void h_encrypt(void) {
     secp256k1_context ctx;
     INPUT_ARR(unsigned char, asig, 162); INPUT_ARR(unsigned char, seckey, 32); INPUT_ARR(unsigned char, msg, 32); INPUT_ARR(unsigned char, aux, 32); INPUT(secp256k1_pubkey, enckey);
     INPUT(_Bool, use_asig); INPUT(_Bool, use_sk); INPUT(_Bool, use_enc); INPUT(_Bool, use_msg); INPUT(_Bool, use_fp); INPUT(_Bool, use_aux); INPUT(_Bool, built); INPUT(size_t, k);
-    unsigned char asig0[162]; int ret;
+    secp256k1_ge Y; int ret, enc_valid;
+    dec_init(); enc_valid = dec_pubkey(&Y, &enckey);
     verif_ctx_init(&ctx); ctx.ecmult_gen_ctx.built = built; ctx.hash_ctx.fn_sha256_compression = secp256k1_sha256_transform;
     g_k = k; __CPROVER_assume(g_k < 162);
-    memcpy(asig0, asig, 162);
-    g_mul_n = 0; g_inv_n = 0; g_gen_n = 0; g_sa_n = 0; g_ec_n = 0; g_dp_n = 0; g_stub_n = 0; HASHLOG_RESET(); g_we = use_aux ? 1 : 0; g_we2 = 0; g_wpos = 0;
+    g_mul_n = 0; g_inv_n = 0; g_gen_n = 0; g_sa_n = 0; g_ec_n = 0; g_dp_n = 0; g_dp_ret = 0; g_stub_n = 0; g_stub_ret = 0; HASHLOG_RESET(); g_we = use_aux ? 1 : 0; g_we2 = 0; g_wpos = 0;
     ret = secp256k1_ecdsa_adaptor_encrypt(&ctx, use_asig ? asig : NULL, use_sk ? seckey : NULL, use_enc ? &enckey : NULL, use_msg ? msg : NULL, use_fp ? stub_noncefp : NULL, use_aux ? aux : NULL);
     __CPROVER_assert(ret == 0 || ret == 1, "C14 adaptor_encrypt: returns 0 or 1");
     __CPROVER_assert(g_error == 0, "C14 adaptor_encrypt: error callback never invoked");
 #ifndef VERIF_NATIVE
-    if (!use_asig || !use_sk || !use_enc || !use_msg || !built || le256(&enckey.data[0]) == 0) {
-        __CPROVER_assert(ret == 0 && g_illegal == 1 && g_ec_n == 0 && g_gen_n == 0, "C14 adaptor_encrypt: NULL argument, unbuilt context or invalid encryption key object is illegal; nothing computed");
-        if (use_asig) __CPROVER_assert(asig[g_k] == asig0[g_k], "C14 adaptor_encrypt: illegal call writes nothing");
+    if (!use_asig || !use_sk || !use_enc || !use_msg || !built || !enc_valid) {
+        __CPROVER_assert(ret == 0 && g_illegal == 1, "C14 adaptor_encrypt: NULL argument, unbuilt context or invalid encryption key object is illegal");
         if (use_asig && use_sk && use_enc && use_msg && built) REACH("adaptor_encrypt invalid enckey");
         return;
     }
     {
-        wide n = N_(), D = be256(seckey), M = modn1(be256(msg)), K, KK, sigr, SPv; unsigned char nonce[32]; int fp_ret, i, bad_nonce, sk_ok = D != 0 && D < n, good; unsigned char xb[32];
+        wide n = N_(), D = be256(seckey), M = modn1(be256(msg)), K, sigr, SPv = 0; unsigned char nonce[32]; int fp_ret, i, sk_ok = D != 0 && D < n, wired = 0, good; unsigned char xb[32];
         __CPROVER_assert(g_illegal == 0, "C14 adaptor_encrypt: no callback for valid arguments");
-        if (use_fp) { __CPROVER_assert(g_stub_n == 1 && g_stub_key == seckey && g_stub_msg == msg && g_stub_data == (use_aux ? aux : NULL), "C14 adaptor_encrypt: the supplied nonce function is called once with the key, message and ndata"); fp_ret = g_stub_ret != 0; for (i = 0; i < 32; i++) nonce[i] = g_stub_nonce[i]; }
-        else { __CPROVER_assert(g_w_fin && g_stub_n == 0, "C14 adaptor_encrypt: default nonce function hashes"); fp_ret = 1; for (i = 0; i < 32; i++) nonce[i] = g_w_dig[i]; }
-        K = modn1(be256(nonce)); bad_nonce = !fp_ret || K == 0; KK = bad_nonce ? 1 : K;
-        __CPROVER_assert(g_ec_n == 1 && sval(&g_ec_q0) == KK && !g_ec_a0.infinity && fe_same_or_normalised(fval(&g_ec_a0.x), le256(&enckey.data[0])) && fe_same_or_normalised(fval(&g_ec_a0.y), le256(&enckey.data[32])), "C14 adaptor_encrypt: R = k*Y with Y the encryption key (k replaced by 1 when the nonce is unusable)");
-        __CPROVER_assert(g_gen_n == 1 && sval(&g_gen_a0) == KK, "C14 adaptor_encrypt: R' = k*G with the same k");
-        __CPROVER_assert(g_sa_n == 1 && GEJ_EQ(g_sa_a0, g_ec_r0) && GEJ_EQ(g_sa_a1, g_gen_r0), "C14 adaptor_encrypt: (R, R') converted to affine");
-        __CPROVER_assert(g_dp_n == 1 && sval(&g_dp_sk) == KK && GE_EQ(g_dp_p1, g_sa_r1) && GE_EQ(g_dp_p2, g_sa_r0) && fe_same_or_normalised(fval(&g_dp_gen2.x), le256(&enckey.data[0])), "C14 adaptor_encrypt: DLEQ proof is for (k; P1 = R', gen2 = Y, P2 = R)");
-        if (g_dp_ret == 0) { __CPROVER_assert(ret == 0 && asig[g_k] == 0, "C14 adaptor_encrypt: DLEQ proof failure => 0 and all-zero output"); REACH("adaptor_encrypt DLEQ failure"); return; }
-        sigr = modn1(modp(fval(&g_sa_r0.x)));
-        __CPROVER_assert(g_mul_n == 2 && sval(&g_mul_a0) == sigr && sval(&g_mul_b0) == (sk_ok && !bad_nonce ? D : 1), "C14 adaptor_encrypt: r*d with r = x(R) mod n and d the secret key");
-        { wide t = sval(&g_mul_r0) + M; if (t >= n) t -= n;
-          __CPROVER_assert(g_inv_n == 1 && sval(&g_inv_x0) == KK && SC_EQ(g_mul_a1, g_inv_r0) && sval(&g_mul_b1) == t, "C14 adaptor_encrypt: s' = k^-1 * (r*d + msg mod n)"); }
-        SPv = sval(&g_mul_r1);
-        good = !bad_nonce && sk_ok && sigr != 0 && SPv != 0;
-        __CPROVER_assert(ret == good, "C14 adaptor_encrypt: succeeds exactly when the nonce function succeeded, k != 0, 0 < seckey < n, r != 0 and s' != 0");
-        if (ret == 0) __CPROVER_assert(asig[g_k] == 0, "C14 adaptor_encrypt: adaptor_sig162 all-zero on every failure");
-        else {
+        if (use_fp) { fp_ret = g_stub_n >= 1 && g_stub_ret != 0; for (i = 0; i < 32; i++) nonce[i] = g_stub_nonce[i]; }
+        else { fp_ret = g_w_fin; for (i = 0; i < 32; i++) nonce[i] = g_w_dig[i]; }
+        K = modn1(be256(nonce));
+        sigr = g_sa_n >= 1 ? modn1(cval4(&g_sa_r0.x)) : 0;
+        /* the chain R = k*Y, R' = k*G, affine conversion, DLEQ proof for (k; R', Y, R), s' = k^-1 * (r*d + m): products located by their operands */
+        if (g_ec_n >= 1 && g_gen_n >= 1 && g_sa_n >= 1 && g_dp_n >= 1 && g_inv_n >= 1 && g_mul_n >= 2) {
+            int rd_is_0 = pair_eq(sval(&g_mul_a0), sval(&g_mul_b0), sigr, D);
+            wide rd = rd_is_0 ? sval(&g_mul_r0) : sval(&g_mul_r1), t = rd + M >= n ? rd + M - n : rd + M;
+            SPv = rd_is_0 ? sval(&g_mul_r1) : sval(&g_mul_r0);
+            wired = sval(&g_ec_q0) == K && !g_ec_a0.infinity && cval4(&g_ec_a0.x) == cval(&Y.x) && cval4(&g_ec_a0.y) == cval(&Y.y) &&
+                    sval(&g_gen_a0) == K && GEJ_EQ(g_sa_a0, g_ec_r0) && GEJ_EQ(g_sa_a1, g_gen_r0) &&
+                    sval(&g_dp_sk) == K && GE_EQ(g_dp_p1, g_sa_r1) && cval4(&g_dp_p2.x) == cval4(&g_sa_r0.x) && cval4(&g_dp_p2.y) == cval4(&g_sa_r0.y) && cval4(&g_dp_gen2.x) == cval(&Y.x) && cval4(&g_dp_gen2.y) == cval(&Y.y) &&
+                    (rd_is_0 ? pair_eq(sval(&g_mul_a1), sval(&g_mul_b1), sval(&g_inv_r0), t) : (pair_eq(sval(&g_mul_a1), sval(&g_mul_b1), sigr, D) && pair_eq(sval(&g_mul_a0), sval(&g_mul_b0), sval(&g_inv_r0), t))) &&
+                    sval(&g_inv_x0) == K;
+        }
+        good = fp_ret && K != 0 && sk_ok && g_dp_n >= 1 && g_dp_ret == 1 && sigr != 0 && wired && SPv != 0;
+        if (ret == 1) {
             unsigned char want;
-            if (g_k == 0) want = 2 | (unsigned char)(modp(fval(&g_sa_r0.y)) & 1);
-            else if (g_k < 33) { be_bytes(xb, modp(fval(&g_sa_r0.x))); want = xb[g_k - 1]; }
-            else if (g_k == 33) want = 2 | (unsigned char)(modp(fval(&g_sa_r1.y)) & 1);
-            else if (g_k < 66) { be_bytes(xb, modp(fval(&g_sa_r1.x))); want = xb[g_k - 34]; }
+            if (use_fp) __CPROVER_assert(g_stub_n >= 1 && g_stub_key == seckey && g_stub_msg == msg && g_stub_data == (use_aux ? aux : NULL), "C14 adaptor_encrypt: the supplied nonce function is called with the caller's key, message and ndata");
+            __CPROVER_assert(fp_ret && K != 0 && sk_ok && g_dp_ret == 1 && sigr != 0, "C14 adaptor_encrypt: success only if the nonce function succeeded, k != 0, 0 < seckey < n, the DLEQ proof exists and r != 0");
+            __CPROVER_assert(wired, "C14 adaptor_encrypt: success goes through R = k*Y, R' = k*G, DLEQ proof for (k; R', Y, R) and s' = k^-1 * (r*d + msg mod n)");
+            __CPROVER_assert(SPv != 0, "C14 adaptor_encrypt: success only if s' != 0");
+            if (g_k == 0) want = 2 | (unsigned char)(cval4(&g_sa_r0.y) & 1);
+            else if (g_k < 33) { be_bytes(xb, cval4(&g_sa_r0.x)); want = xb[g_k - 1]; }
+            else if (g_k == 33) want = 2 | (unsigned char)(cval4(&g_sa_r1.y) & 1);
+            else if (g_k < 66) { be_bytes(xb, cval4(&g_sa_r1.x)); want = xb[g_k - 34]; }
             else if (g_k < 98) { be_bytes(xb, SPv); want = xb[g_k - 66]; }
             else if (g_k < 130) { be_bytes(xb, sval(&g_dp_e)); want = xb[g_k - 98]; }
             else { be_bytes(xb, sval(&g_dp_s)); want = xb[g_k - 130]; }
@@ -82,10 +89,14 @@ void h_encrypt(void) {
             if (!use_fp && use_aux) REACH("adaptor_encrypt success, default nonce function with aux");
             if (use_fp) REACH("adaptor_encrypt success, supplied nonce function");
         }
+        if (good) __CPROVER_assert(ret == 1, "C14 adaptor_encrypt: with a usable nonce, valid key, DLEQ proof, r != 0 and s' != 0 the call succeeds");
+        if (!fp_ret || K == 0 || !sk_ok) __CPROVER_assert(ret == 0, "C14 adaptor_encrypt: nonce function failure, k = 0 or an invalid secret key => 0");
         if (ret == 0 && !fp_ret) REACH("adaptor_encrypt nonce function failed");
         if (ret == 0 && fp_ret && K == 0) REACH("adaptor_encrypt k = 0");
-        if (ret == 0 && !bad_nonce && !sk_ok) REACH("adaptor_encrypt invalid secret key");
-        if (ret == 0 && !bad_nonce && sk_ok && sigr != 0 && SPv == 0) REACH("adaptor_encrypt s' = 0");
+        if (ret == 0 && fp_ret && K != 0 && !sk_ok) REACH("adaptor_encrypt invalid secret key");
+        if (ret == 0 && fp_ret && K != 0 && sk_ok && g_dp_n >= 1 && g_dp_ret == 0) REACH("adaptor_encrypt DLEQ failure");
+        if (ret == 0 && fp_ret && K != 0 && sk_ok && g_dp_ret == 1 && sigr == 0 && g_sa_n >= 1) REACH("adaptor_encrypt r = 0");
+        if (ret == 0 && fp_ret && K != 0 && sk_ok && g_dp_ret == 1 && sigr != 0 && wired && SPv == 0) REACH("adaptor_encrypt s' = 0");
     }
 #endif
 }
